@@ -818,6 +818,20 @@ class CompositeEnvelope:
                 ), "e.composite_envelope should be CompositeEnvelope type"
                 composite_envelopes.append(e.composite_envelope)
 
+        # All of the handles, which point to one of the merged containers
+        merged_containers = [
+            CompositeEnvelope._containers[ce.uid] for ce in composite_envelopes
+        ]
+        merged_handles = [
+            handle
+            for handles in CompositeEnvelope._instances.values()
+            for handle in handles
+            if any(
+                CompositeEnvelope._containers.get(handle.uid) is c
+                for c in merged_containers
+            )
+        ]
+
         ce_container = None
         for ce in composite_envelopes:
             assert isinstance(
@@ -829,6 +843,9 @@ class CompositeEnvelope:
             else:
                 ce_container.append_states(CompositeEnvelope._containers[ce.uid])
             ce.uid = self.uid
+        # Handles which were not passed, but share a merged container follow it
+        for handle in merged_handles:
+            handle.uid = self.uid
         if ce_container is None:
             ce_container = CompositeEnvelopeContainer(self.uid)
         for e in envelopes:
